@@ -57,6 +57,8 @@ pub struct Report {
     /// digests of distinct states visited (state measure named by the property)
     pub states: Vec<u64>,
     pub counters: BTreeMap<String, u64>,
+    /// measured maxima (e.g. worst relative excess seen by an oracle), merged by max
+    pub maxima: BTreeMap<String, f64>,
     /// words served by the primary tape (for literal replay)
     pub tape: Vec<Word>,
     /// digest of results that must additionally agree across OS processes; a cross-process
@@ -68,6 +70,14 @@ impl Report {
     pub fn count(&mut self, key: &str, by: u64) {
         if by > 0 {
             *self.counters.entry(key.to_string()).or_insert(0) += by;
+        }
+    }
+    pub fn max(&mut self, key: &str, v: f64) {
+        if v.is_finite() {
+            let e = self.maxima.entry(key.to_string()).or_insert(f64::NEG_INFINITY);
+            if v > *e {
+                *e = v;
+            }
         }
     }
     pub fn fail(&mut self, class: &str, cause: &str, detail: String) {
@@ -187,6 +197,7 @@ struct Agg {
     simulated_runs: u64,
     schedule_free_runs: u64,
     counters: BTreeMap<String, u64>,
+    maxima: BTreeMap<String, f64>,
     schedules: HashSet<u64>,
     states: HashSet<u64>,
     batch_digest: u64,
@@ -205,6 +216,12 @@ impl Agg {
         self.schedule_free_runs += o.schedule_free_runs;
         for (k, v) in o.counters {
             *self.counters.entry(k).or_insert(0) += v;
+        }
+        for (k, v) in o.maxima {
+            let e = self.maxima.entry(k).or_insert(f64::NEG_INFINITY);
+            if v > *e {
+                *e = v;
+            }
         }
         self.schedules.extend(o.schedules);
         self.states.extend(o.states);
@@ -240,7 +257,14 @@ fn run_batches<P: Property>(
 ) -> Agg {
     let batches = p.batches(tier);
     let total = Mutex::new(Agg::default());
-    for b in &batches {
+    let trace = std::env::var("VERIF_TRACE").is_ok();
+    let only = std::env::var("VERIF_ONLY_BATCH").ok();
+    for (bno, b) in batches.iter().enumerate() {
+        if let Some(o) = &only {
+            if o != b.name {
+                continue;
+            }
+        }
         let limit = if only_prefix {
             prefix_len(b.count, tier)
         } else {
@@ -250,10 +274,11 @@ fn run_batches<P: Property>(
         let next = AtomicU64::new(0);
         let chunk: u64 = (limit / (nworkers as u64 * 16)).clamp(1, 256);
         std::thread::scope(|s| {
-            for _w in 0..nworkers {
+            for w in 0..nworkers {
                 let builder = std::thread::Builder::new().stack_size(64 << 20);
+                let (next, total) = (&next, &total);
                 builder
-                    .spawn_scoped(s, || {
+                    .spawn_scoped(s, move || {
                         let mut agg = Agg::default();
                         loop {
                             let start = next.fetch_add(chunk, Ordering::Relaxed);
@@ -264,7 +289,14 @@ fn run_batches<P: Property>(
                             for idx in start..end {
                                 let cs = case_seed(seed, p.id(), b.name, idx);
                                 let case = p.gen(b.name, idx, cs);
+                                if trace {
+                                    eprintln!("TRACE start {} {}", b.name, idx);
+                                }
+                                super::crash::set_current(w, bno as u64, idx);
                                 let rep = p.run(&case);
+                                if trace {
+                                    eprintln!("TRACE done {} {}", b.name, idx);
+                                }
                                 agg.evaluations += 1;
                                 if b.simulated {
                                     agg.simulated_runs += 1;
@@ -281,6 +313,12 @@ fn run_batches<P: Property>(
                                 }
                                 for (k, v) in &rep.counters {
                                     *agg.counters.entry(k.clone()).or_insert(0) += v;
+                                }
+                                for (k, v) in &rep.maxima {
+                                    let e = agg.maxima.entry(k.clone()).or_insert(f64::NEG_INFINITY);
+                                    if *v > *e {
+                                        *e = *v;
+                                    }
                                 }
                                 if let Some(sd) = rep.schedule {
                                     agg.schedules.insert(sd);
@@ -314,6 +352,7 @@ fn run_batches<P: Property>(
                                 }
                             }
                         }
+                        super::crash::clear_current(w);
                         total.lock().unwrap().merge(agg);
                     })
                     .unwrap();
@@ -385,6 +424,10 @@ pub fn replay_case<P: Property>(p: &P, path: &Path) -> i32 {
         }
     };
     let rep = p.run(&case);
+    if std::env::var("VERIF_REPLAY_VERBOSE").is_ok() {
+        println!("{}", serde_json::to_string_pretty(&p.sample(&case, &rep)).unwrap());
+        println!("counters: {:?}", rep.counters);
+    }
     if let Some(exp) = v.get("expected_aux_digest").and_then(|x| x.as_str()) {
         let got = format!("{:016x}", rep.aux_digest);
         if rep.violation.is_none() && got != exp {
@@ -454,6 +497,204 @@ fn sanitize(s: &str) -> String {
 // top-level check
 // ------------------------------------------------------------------------------------------
 
+fn died_by_signal(st: &std::process::ExitStatus) -> Option<i32> {
+    use std::os::unix::process::ExitStatusExt;
+    st.signal()
+}
+
+/// `harness replay`: run the recorded case in a child so that a crash of the code under test is
+/// reported as the violation it is (class process-abort) instead of killing the reporter.
+pub fn replay_supervised<P: Property>(p: &P, path: &Path) -> i32 {
+    let exe = std::env::current_exe().expect("current_exe");
+    let st = std::process::Command::new(exe)
+        .args(["replay-inner", p.id(), path.to_str().unwrap_or("")])
+        .status();
+    match st {
+        Ok(st) => {
+            if let Some(sig) = died_by_signal(&st) {
+                println!("REPLAY property={} class=process-abort cause=signal-{} digest=0", p.id(), sig);
+                println!("  detail: the code under test killed the process (signal {}) on this case", sig);
+                1
+            } else {
+                st.code().unwrap_or(2)
+            }
+        }
+        Err(e) => {
+            eprintln!("harness error: cannot spawn replay child: {}", e);
+            2
+        }
+    }
+}
+
+fn write_case_file<P: Property>(p: &P, path: &Path, case: &P::Case, extra: Value) -> bool {
+    let mut file = json!({"property": p.id(), "case": serde_json::to_value(case).unwrap()});
+    if let (Some(o), Some(e)) = (file.as_object_mut(), extra.as_object()) {
+        for (k, v) in e {
+            o.insert(k.clone(), v.clone());
+        }
+    }
+    std::fs::write(path, serde_json::to_string_pretty(&file).unwrap()).is_ok()
+}
+
+fn case_aborts<P: Property>(p: &P, path: &Path) -> Option<i32> {
+    let exe = std::env::current_exe().expect("current_exe");
+    let st = std::process::Command::new(exe)
+        .args(["replay-inner", p.id(), path.to_str().unwrap_or("")])
+        .stdout(std::process::Stdio::null())
+        .stderr(std::process::Stdio::null())
+        .status()
+        .ok()?;
+    died_by_signal(&st)
+}
+
+/// `harness run`: supervise the real check (`exec`) so that a process-killing run is contained.
+pub fn supervise<P: Property>(p: &P, tier: Tier) -> i32 {
+    let exe = std::env::current_exe().expect("current_exe");
+    let dir = verif_root().join("replays");
+    let _ = std::fs::create_dir_all(&dir);
+    let crash_file = dir.join(format!(".crash-{}-{}.txt", p.id(), std::process::id()));
+    let t0 = Instant::now();
+    let st = std::process::Command::new(&exe)
+        .args(["exec", p.id(), tier.name()])
+        .env("VERIF_CRASH_FILE", &crash_file)
+        .status();
+    let st = match st {
+        Ok(s) => s,
+        Err(e) => {
+            eprintln!("HARNESS-ERROR property={} cannot spawn exec child: {}", p.id(), e);
+            return 2;
+        }
+    };
+    let sig = match died_by_signal(&st) {
+        None => {
+            let _ = std::fs::remove_file(&crash_file);
+            return st.code().unwrap_or(2);
+        }
+        Some(s) => s,
+    };
+    // the code under test killed the process: find the case
+    let seed = base_seed();
+    let dump = std::fs::read_to_string(&crash_file).unwrap_or_default();
+    let _ = std::fs::remove_file(&crash_file);
+    let batches = p.batches(tier);
+    let mut cands: Vec<(usize, u64)> = dump
+        .lines()
+        .filter_map(|l| {
+            let parts: Vec<&str> = l.split_whitespace().collect();
+            if parts.len() == 3 && parts[0] == "CRASH-CANDIDATE" {
+                Some((parts[1].parse().ok()?, parts[2].parse().ok()?))
+            } else {
+                None
+            }
+        })
+        .collect();
+    cands.sort();
+    cands.dedup();
+    println!(
+        "  the check process was killed by signal {} while executing one of {} in-flight runs; isolating it",
+        sig,
+        cands.len()
+    );
+    let tmp = dir.join(format!(".cand-{}-{}.json", p.id(), std::process::id()));
+    let mut found: Option<(String, u64, P::Case, i32)> = None;
+    for (bno, idx) in &cands {
+        if *bno >= batches.len() {
+            continue;
+        }
+        let bname = batches[*bno].name;
+        let case = p.gen(bname, *idx, case_seed(seed, p.id(), bname, *idx));
+        if !write_case_file(p, &tmp, &case, json!({})) {
+            continue;
+        }
+        if let Some(s) = case_aborts(p, &tmp) {
+            found = Some((bname.to_string(), *idx, case, s));
+            break;
+        }
+    }
+    let (bname, idx, case, s) = match found {
+        Some(f) => f,
+        None => {
+            let _ = std::fs::remove_file(&tmp);
+            eprintln!(
+                "HARNESS-ERROR property={} check process died with signal {} and none of the in-flight runs reproduces it in isolation",
+                p.id(),
+                sig
+            );
+            return 2;
+        }
+    };
+    // minimise with one subprocess per candidate
+    let mut cur = case;
+    let mut attempts = 0u64;
+    let tmin = Instant::now();
+    'outer: loop {
+        for cand in p.shrink(&cur) {
+            if attempts >= 400 || tmin.elapsed().as_secs() > 90 {
+                break 'outer;
+            }
+            attempts += 1;
+            if write_case_file(p, &tmp, &cand, json!({})) && case_aborts(p, &tmp).is_some() {
+                cur = cand;
+                continue 'outer;
+            }
+        }
+        break;
+    }
+    let _ = std::fs::remove_file(&tmp);
+    let path = dir.join(format!("{}-process-abort-signal-{}-{}-{}.json", p.id(), s, seed, idx));
+    write_case_file(
+        p,
+        &path,
+        &cur,
+        json!({"class": "process-abort", "cause": format!("signal-{}", s),
+               "detail": "the code under test killed the process (e.g. unbounded recursion -> stack overflow -> abort)",
+               "seed": seed, "batch": bname, "index": idx, "shrink_attempts": attempts,
+               "how_to_replay": format!("cd /verif && ./check replay {} <this file>", p.id())}),
+    );
+    if case_aborts(p, &path).is_none() {
+        eprintln!("HARNESS-ERROR property={} unstable replay: {} does not abort in a fresh process", p.id(), path.display());
+        return 2;
+    }
+    println!(
+        "  violation class=process-abort cause=signal-{} first={}#{} detail: the code under test killed the process on this case",
+        s, bname, idx
+    );
+    println!("VIOLATION property={} replay={}", p.id(), path.display());
+    // evidence of what this (failed) run covered
+    let sample = p.sample(&cur, &Report::default());
+    let evidence = json!({
+        "property_id": p.id(), "tier": tier.name(), "seed": seed as i64, "level": "exploration",
+        "coverage": {
+            "evaluations": cands.len().max(1), "distinct_nontrivial": 0,
+            "rule": p.rule(),
+            "samples": [{"batch": bname, "index": idx, "run": sample}],
+            "explanation": "the batch was cut short: a run killed the check process; only the isolation of that run is reported",
+            "violation_records": [{"class": "process-abort", "cause": format!("signal-{}", s), "replay": path.to_str()}],
+        },
+        "assumptions": p.assumptions(), "wall_s": t0.elapsed().as_secs_f64(), "violations": 1,
+    });
+    let evdir = verif_root().join("evidence");
+    let _ = std::fs::create_dir_all(&evdir);
+    let _ = std::fs::write(evdir.join(format!("{}.json", p.id())), serde_json::to_string_pretty(&evidence).unwrap());
+    1
+}
+
+/// debugging aid: generate one case of a batch, dump it (VERIF_DUMP_CASE=1) and run it
+pub fn one_case<P: Property>(p: &P, batch: &str, index: u64) -> i32 {
+    let seed = base_seed();
+    let cs = case_seed(seed, p.id(), batch, index);
+    let case = p.gen(batch, index, cs);
+    if std::env::var("VERIF_DUMP_CASE").is_ok() {
+        println!("{}", serde_json::to_string(&json!({"property": p.id(), "case": serde_json::to_value(&case).unwrap()})).unwrap());
+        return 0;
+    }
+    let rep = p.run(&case);
+    println!("{}", serde_json::to_string_pretty(&p.sample(&case, &rep)).unwrap());
+    println!("violation: {:?}", rep.violation);
+    println!("counters: {:?}", rep.counters);
+    rep.violation.is_some() as i32
+}
+
 pub fn digest_only<P: Property>(p: &P, tier: Tier) -> i32 {
     let seed = base_seed();
     let agg = run_batches(p, tier, seed, workers(), true, 0);
@@ -467,6 +708,9 @@ pub fn digest_only<P: Property>(p: &P, tier: Tier) -> i32 {
 }
 
 pub fn check<P: Property>(p: &P, tier: Tier) -> i32 {
+    if let Ok(cf) = std::env::var("VERIF_CRASH_FILE") {
+        super::crash::install(Path::new(&cf));
+    }
     let seed = base_seed();
     let t0 = Instant::now();
     let nworkers = workers();
@@ -788,6 +1032,7 @@ pub fn check<P: Property>(p: &P, tier: Tier) -> i32 {
             "fault_kinds_fired": faults,
             "probes": probes,
             "other_counters": other,
+            "measured_maxima": agg.maxima,
             "distinct_schedules": agg.schedules.len(),
             "distinct_states": agg.states.len(),
             "state_measure": p.state_measure(),
